@@ -27,6 +27,8 @@ PROFILES = {
     'order':     dict(BASE, pConsume=120, pGuardCancel=50, pGuardIssue=30, wReact=8, wQuery=5, wUpdate=6),
     'order-lo':  dict(BASE, pConsume=25, wReact=8, wQuery=5, wUpdate=6),
     'serial':    dict(BASE, wSaveLoad=35, pGuardCancel=40, pGuardIssue=30, wExitEnter=2, wReset=1),
+    'plans':     dict(BASE, planDump=1, wPlanEdit=4, wExtStatus=2, pSucceed=180, pFail=40, pPlanInCb=40, pHeadStatus=60, pGuardCancel=40, pGuardIssue=20, pIssue=15, maxBatch=1, kinds=0x7f),
+    'plans-edit': dict(BASE, planDump=1, wPlanEdit=12, wExtStatus=1, pSucceed=60, pFail=10, pPlanInCb=150, pGuardCancel=20, pGuardIssue=10, pIssue=10, maxBatch=1),
     'payload':   dict(BASE, pGuardCancel=60, pGuardIssue=100, pIssue=80, maxBatch=4),
 }
 
@@ -38,6 +40,8 @@ SHAPE_PROPS = {
     'C04': dict(profiles=['guards', 'guards-lo'], title='guards / veto / rounds'),
     'C11x': dict(profiles=['mixed'], title='asserts (temporary)'),
     'C05': dict(profiles=['order', 'order-lo'], title='delivery order'),
+    'C06': dict(profiles=['plans'], title='plans'),
+    'C07': dict(profiles=['plans-edit', 'plans'], title='plan storage'),
     'C08': dict(profiles=['serial'], title='save/load'),
     'C09': dict(profiles=['history', 'replica', 'single'], title='history'),
     'C13': dict(profiles=['single', 'mixed'], title='queries'),
@@ -49,12 +53,14 @@ RULES = {
     'C03': 'evaluations = API operations whose callback stream went through the lifecycle automaton; distinct_nontrivial = distinct (shape, active, resumable) configurations reached',
     'C04': 'evaluations = processing steps whose guard rounds were segmented and checked; distinct_nontrivial = distinct (shape, configuration, rounds, vetoes) with at least one vetoed round',
     'C05': 'evaluations = update()/react()/query() calls whose delivery sequence was compared with the sequence computed from the configuration; distinct_nontrivial = distinct (shape, configuration, call kind, consuming (phase,state) set)',
+    'C06': 'evaluations = update()/react() steps run through the plan interpreter; distinct_nontrivial = distinct (shape, configuration, executed task ids / plan notifications) outcomes with at least one execution or notification',
+    'C07': 'evaluations = plan edits (append / remove-while-iterating / clear) applied and compared; distinct_nontrivial = distinct (shape, per-region task id lists) plan contents observed',
     'C08': 'evaluations = save/load pairs between two independently walked instances; distinct_nontrivial = distinct (shape, destination configuration before, saved active, saved resumable) triples',
     'C09': 'evaluations = steps whose previousTransitions()/lastTransitionTo() were compared with the interpreter; distinct_nontrivial = distinct (shape, recorded history, configuration) with a non-empty history',
     'C13': 'evaluations = quiescent query checks; distinct_nontrivial = distinct (shape, configuration before, after) of single-request rounds whose isPending* vectors were compared with the enter/exit callbacks',
     'C14': 'evaluations = payload observations (guards, enter, history, lastTransition); distinct_nontrivial = distinct (shape, id tuple recorded in history)',
 }
-EVAL_KEY = {'C08': 'C08.loads', 'C05': 'C05.deliveries', 'C04': 'C04.guard-calls', 'C13': 'C13.quiescent-checks', 'C14': 'C14.payloads-seen-by-guards'}
+EVAL_KEY = {'C06': 'C06.steps', 'C07': 'C07.plan-comparisons', 'C08': 'C08.loads', 'C05': 'C05.deliveries', 'C04': 'C04.guard-calls', 'C13': 'C13.quiescent-checks', 'C14': 'C14.payloads-seen-by-guards'}
 ASSUME = [
     'the generated machine shapes and the seeded walks are a sample, not the whole quantifier',
     'the director keeps runs inside the documented preconditions (DESIGN 2.2): select/utilize/randomize only where no anonymous head takes part, positive top-rank utility sums',
@@ -95,6 +101,8 @@ def run_job(job):
         header, ops, trailer, stray = logparse.parse(logp)
         if header is None: raise RuntimeError('log has no header')
         knobs = {k: v for k, v in PROFILES[profile].items() if k in ('zeroUtil', 'palette', 'pConsume')}
+        knobs['plans'] = 1 if PROFILES[profile].get('planDump') else 0
+        knobs['taskcap'] = sj['cfg'].get('taskcap') or 2 * sj['expect']['COMPO_PRONGS']
         chk = check_log.Checker(sj, int(header[3]), knobs, int(header[5]), header[4] == '1')
         chk.run(ops)
         if len(header) >= 9 and int(header[7]) >= 0:
@@ -178,7 +186,7 @@ def adjudicate(V, prop, results, shapeset, flavours, extra):
         for h in r['cfg_hashes']: cfgs.add(h)
         if len(samples) < 4 and s['samples']:
             sm = dict(s['samples'][-1]); sm.update(shape=r['shape'], desc=r['desc'], flavour=r['flavour'], profile=r['profile'], seed=r['seed']); samples.append(sm)
-    distinct = len(nt) if prop in ('C02', 'C04', 'C05', 'C08', 'C09', 'C13', 'C14') else len(cfgs)
+    distinct = len(nt) if prop in ('C02', 'C04', 'C05', 'C06', 'C07', 'C08', 'C09', 'C13', 'C14') else len(cfgs)
     cov = {
         'evaluations': evals, 'distinct_nontrivial': distinct, 'rule': RULES[prop], 'samples': samples,
         'runs': len(results), 'runs_completed': completed, 'shapes': [{'name': s['name'], 'desc': s['desc'], 'cfg': s['cfg']} for s in shapeset],
